@@ -185,6 +185,27 @@ def run(ctx):
                        disc=f"diag|{n_diag}")
     ctx.count("diagnostic_guards_scanned", n_diag)
 
+    # ------------------------------------------------------------ nothing random is derived from Python's salted hash()
+    # hash() of str / bytes (and of tuples containing them) changes from one interpreter process to the next (PYTHONHASHSEED): a seed, a key or an order
+    # derived from it makes identically seeded runs in two processes differ
+    n_hash, salted = 0, []
+    for f in repo.all_functions():
+        if f.name == "__hash__":
+            continue
+        for n in walk_no_nested(f.node):
+            if isinstance(n, ast.Call) and isinstance(n.func, ast.Name) and n.func.id == "hash":
+                n_hash += 1
+                only_numbers = n.args and all(isinstance(x, ast.Constant) and isinstance(x.value, (int, float)) for x in ast.walk(n.args[0]) if isinstance(x, ast.Constant)) \
+                    and not any(isinstance(x, (ast.Name, ast.Attribute, ast.JoinedStr)) for x in ast.walk(n.args[0]))
+                if not only_numbers:
+                    salted.append((f, n))
+    ctx.count("builtin_hash_calls", n_hash)
+    ctx.decide(not salted, "C20.seed", "package", loc_of(salted[0][0], salted[0][1]) if salted else "src/aspire",
+               "no value is derived from the process-salted builtin hash()",
+               (f"{salted[0][0].ident} calls hash({ast.unparse(salted[0][1].args[0])[:50] if salted[0][1].args else ''}): for strings (and tuples holding them) the result depends on the interpreter's "
+                "per-process hash salt, so whatever is derived from it -- a seed for a refitted flow, a key, an iteration order -- differs between two runs that were given the same seed, key and generator") if salted else "",
+               disc="salted-hash")
+
     # ------------------------------------------------------------ random-source parameters are effectual
     n_params = 0
     for f in repo.all_functions(include_nested=False):
@@ -606,6 +627,9 @@ MUTANTS += [
 ]
 MUTANTS += [
     M("debug-only sanity check draws from the trained flow", "src/aspire/aspire.py", "history = self.flow.fit(samples.x, **kwargs)", "history = self.flow.fit(samples.x, **kwargs)\n        if logger.isEnabledFor(logging.DEBUG):\n            logger.debug(\"flow mean %s\", self.flow.sample(100).mean(0))", "C20.fresh"),
+]
+MUTANTS += [
+    M("a per-fit seed derived with the builtin hash of a labelled tuple", "src/aspire/utils.py", "def copy_array(x, xp: Any = None) -> Array:", "def derive_seed(seed, *labels):\n    return hash((seed, *labels)) % 2**32\n\n\ndef copy_array(x, xp: Any = None) -> Array:", "C20.seed"),
 ]
 NEUTRALS = [
     M("debug-only summary of the training data (no draw)", "src/aspire/aspire.py", "history = self.flow.fit(samples.x, **kwargs)", "history = self.flow.fit(samples.x, **kwargs)\n        if logger.isEnabledFor(logging.DEBUG):\n            logger.debug(\"data mean %s\", samples.x.mean(0))"),
